@@ -13,7 +13,7 @@ open MosnVerif.Drive MosnVerif.Drive.Downstream MosnVerif.Model.Downstream MosnV
 def labelsFor (s : S) : List Label :=
   let ks := List.range s.streams.length
   [Label.work, .perTryFire, .globalFire, .downReset .StreamConnectionTermination, .connClose, .terminate 418,
-   .terminateStale 0 419] ++
+   .terminateStale 0 419, .gtInSetup false, .gtInSetup true] ++
   (ks.map (fun k => Label.terminateRaced 418 k true false)) ++
   (ks.map (fun k => Label.lateResp k true false)) ++
   (if s.failNext.length < 2 then [.poolFail .overflow, .poolFail .connfail] else []) ++
@@ -40,6 +40,7 @@ def labelTok : Label → String
   | .terminateStale _ code => s!"TS{code}"
   | .terminateRaced code k d t => s!"TR{code}:{k}:{bs d}{bs t}"
   | .lateResp k d t => s!"L{k}:{bs d}{bs t}"
+  | .gtInSetup b => s!"GS{bs b}"
 
 /-- extra per-state checks besides `inv`: a finished exchange has a classified outcome; a parked worker of a two-way
 request can be completed by the global timer -/
